@@ -19,8 +19,9 @@ import time
 
 from harness import tlc
 
-ALL_DEV = ["D_handler_close", "D_lost_refresh", "D_func_dedup"]
-DEV_BREAKS = {"D_handler_close": ["InstalledOpen"], "D_lost_refresh": ["Fresh"], "D_func_dedup": ["OnePending"]}
+ALL_DEV = ["D_handler_close", "D_lost_refresh", "D_func_dedup", "D_stale_clear"]
+DEV_BREAKS = {"D_handler_close": ["InstalledOpen"], "D_lost_refresh": ["Fresh"], "D_func_dedup": ["OnePending"],
+              "D_stale_clear": ["OneHandler"]}
 DEV_WHAT = {
     "D_handler_close":
         "_ReconnectionHandler.run closes the connection it was given in `finally`; for the control connection's handler "
@@ -32,6 +33,12 @@ DEV_WHAT = {
         "connection's host only; when the host is already down, or the connection is replaced before on_down runs, nobody "
         "reconnects or refreshes again: a NEW_NODE / REMOVED_NODE received on the new, not yet installed connection (it is "
         "registered before it is installed) is consumed and the metadata stays stale",
+    "D_stale_clear":
+        "a _ControlReconnectionHandler that is cancelled and replaced (a concurrent _reconnect found no host) after it has "
+        "passed its `if not self._cancelled` still installs its connection and runs its callback "
+        "_get_and_set_reconnection_handler(None), which clears the reference to the NEWER handler: that one keeps "
+        "retrying, can no longer be cancelled by the next _reconnect or replaced, and ControlConnection.on_down believes no "
+        "reconnection is under way - two reconnection loops can then run side by side",
     "D_func_dedup":
         "schedule_unique does not recognise a repeated SCHEMA_CHANGE event for a FUNCTION / AGGREGATE: the event carries a "
         "UserFunctionDescriptor / UserAggregateDescriptor object without __eq__ / __hash__, so every event inside the "
@@ -42,7 +49,8 @@ INVARIANTS = ["TypeOK", "OnePending", "EventScheduled", "RingEventScheduled", "W
 PROPERTIES = ["DownEvent", "DownTask"]
 WITNESSES = ["Witness_Dedup", "Witness_SecondAfterRun", "Witness_HandlerInstall", "Witness_SwitchedHost",
              "Witness_EventOnNewConn", "Witness_LostRingEvent", "Witness_TwoReconnects", "Witness_ShutMidSwitch",
-             "Witness_RefreshFails", "Witness_RetryLoop", "Witness_RemovedByEvent", "Witness_FreshAfterLoss"]
+             "Witness_RefreshFails", "Witness_RetryLoop", "Witness_RemovedByEvent", "Witness_FreshAfterLoss",
+             "Witness_CancelledLate"]
 ALL_KINDS = {"NEW", "MOVED", "REMOVED", "UP", "DOWN", "SCHEMA"}
 LEVEL_TEXT = ("TLC explores every interleaving of pushed events (topology, status, schema), scheduler hand-overs, executor "
               "tasks, control-connection deaths, heartbeat notices, nodes refusing connections, membership changes, the steps "
@@ -64,7 +72,7 @@ def graph_configs(quick):
     out = [
         ("windows-off", C(kinds={"NEW", "MOVED", "SCHEMA", "REMOVED"}, topo=False, schema=False, ev=2)),
         ("schema", C(kinds={"SCHEMA"}, ev=3, **both)),
-        ("handler", C(hosts=(1,), ring0=(1,), faults=3, beats=1)),
+        ("handler", C(hosts=(1,), ring0=(1,), faults=3, beats=2)),
         ("ring", C(ring=1, faults=1)),
         ("events", C(kinds={"NEW", "REMOVED", "UP", "SCHEMA"}, ev=2, **both)),
         ("reconnect", C(hosts=(1, 2), kinds={"DOWN"}, ev=1, faults=1, beats=1)),
@@ -89,6 +97,8 @@ def intended_only(quick):
             ("mixed", C(kinds={"DOWN", "NEW"}, ev=1, ring=1, faults=1)),
             ("ring-2", C(ring=2, faults=1)),
             ("reconnect-3faults", C(hosts=(1, 2), kinds={"DOWN"}, ev=1, faults=3, beats=1)),
+            ("handler-5faults", C(hosts=(1,), ring0=(1,), faults=5, beats=3)),
+            ("handler-2hosts", C(hosts=(1, 2), faults=4, beats=2)),
             ("ring-2faults", C(ring=1, faults=2, beats=1))]
 
 
@@ -120,7 +130,7 @@ def expected_actions(c):
     if c["MaxBeats"] and c["MaxFaults"] >= len(c["Ring0"]) + 1:
         exp |= {"RcStep:direct.nohost", "Fire:CRecon", "Exec:CRecon"}
     if c["MaxBeats"] and c["MaxFaults"] >= len(c["Ring0"]) + 2:
-        exp |= {"RcStep:handler.try", "RcStep:handler.set", "RcStep:handler.nohost"}
+        exp |= {"RcStep:handler.try", "RcStep:handler.set", "RcStep:handler.inst", "RcStep:handler.nohost"}
     exp.discard("Exec:none")
     return exp
 
@@ -143,31 +153,41 @@ def actions_in(states):
 
 # ---------------------------------------------------------------------- deviation probes
 def probes():
-    from harness.replay.controlevents import A, T
+    from harness.replay.controlevents import A, T, R
     big = C(kinds=ALL_KINDS, targets=("ks", "ks.f(int)"), func=("ks.f(int)",), ev=9, ring=9, faults=9, beats=9)
+    # an outage: the control connection is dead, both nodes refuse: _reconnect finds no host, the handler takes over
+    outage = [A("ConnDie", c=1), A("NodeMode", kind="refuse", h=1), A("NodeMode", kind="refuse", h=2), A("Heartbeat", c=1),
+              A("Exec", t=T("Reconnect")), A("RcStep", r=R("direct", (1, 2)), kind="try"),
+              A("RcStep", r=R("direct", (2,)), kind="try"), A("RcStep", r=R("direct"), kind="nohost")]
+    # node 2 accepts again; the handler's next attempt gets its connection and passes `if not self._cancelled`
+    handler_connects = [A("NodeMode", kind="accept", h=2), A("Fire", t=T("CRecon")), A("Exec", t=T("CRecon")),
+                        A("RcStep", r=R("handler", (1, 2)), kind="try"), A("RcStep", r=R("handler", (2,)), kind="try"),
+                        A("RcStep", r=R("handler", (), 2), kind="set")]
     return {
-        # both nodes refuse while the control connection is dead: the handler takes over; node 2 accepts again
-        "D_handler_close": (big, [
-            A("ConnDie", c=1), A("NodeMode", kind="refuse", h=1), A("NodeMode", kind="refuse", h=2), A("Heartbeat", c=1),
-            A("Exec", t=T("Reconnect")), A("RcStep", r=("direct", False, (1, 2), 0), kind="try"),
-            A("RcStep", r=("direct", False, (2,), 0), kind="try"), A("RcStep", r=("direct", False, (), 0), kind="nohost"),
-            A("NodeMode", kind="accept", h=2), A("Fire", t=T("CRecon")), A("Exec", t=T("CRecon")),
-            A("RcStep", r=("handler", False, (1, 2), 0), kind="try"), A("RcStep", r=("handler", False, (2,), 0), kind="try"),
-            A("RcStep", r=("handler", False, (), 2), kind="set")],
-            lambda ps, ring: ps[-1]["ctl"] == (2, "closed")),
+        "D_handler_close": (big, outage + handler_connects + [A("RcStep", r=R("handler", (), 2, st="inst"), kind="inst")],
+                            lambda ps, ring: ps[-1]["ctl"] == (2, "closed")),
         # node 1 dies; while the reconnection holds its new connection to node 2 (refreshed, registered, not installed)
         # node 3 joins: NEW_NODE arrives on the new connection, the refresh it schedules runs on the old one
         "D_lost_refresh": (big, [
             A("ConnDie", c=1), A("NodeMode", kind="refuse", h=1), A("Heartbeat", c=1), A("Exec", t=T("Reconnect")),
-            A("RcStep", r=("direct", False, (1, 2), 0), kind="try"), A("RcStep", r=("direct", False, (2,), 0), kind="try"),
+            A("RcStep", r=R("direct", (1, 2)), kind="try"), A("RcStep", r=R("direct", (2,)), kind="try"),
             A("RingAdd", kind="NEW", h=3), A("Fire", t=T("RefreshIf")), A("Exec", t=T("RefreshIf")),
-            A("RcStep", r=("direct", False, (), 2), kind="set"), A("Exec", t=T("OnDown", 1))],
+            A("RcStep", r=R("direct", (), 2), kind="set"), A("Exec", t=T("OnDown", 1))],
             lambda ps, ring: (ps[-1]["ctl"] == (2, "open") and 3 not in ps[-1]["known"] and not ps[-1]["rcs"]
                               and not [t for t in ps[-1]["exec"] if t[0] == "Reconnect"]
                               and not [t for t in ps[-1]["sched"] if t[0] != "HRecon"])),
         "D_func_dedup": (big, [
             A("Push", kind="SCHEMA", x="ks.f(int)", c=1), A("Push", kind="SCHEMA", x="ks.f(int)", c=1)],
             lambda ps, ring: ps[-1]["sched"].get(T("Schema", 0, "ks.f(int)")) == 2),
+        # ... meanwhile the heartbeat reports the dead connection again and that _reconnect finds no host (node 2 refuses
+        # once more): it cancels and replaces the handler, which then goes on to install its connection and to clear the
+        # reference - to its successor
+        "D_stale_clear": (big, outage + handler_connects + [
+            A("Heartbeat", c=1), A("NodeMode", kind="refuse", h=2), A("Exec", t=T("Reconnect")),
+            A("RcStep", r=R("direct", (1, 2)), kind="try"), A("RcStep", r=R("direct", (2,)), kind="try"),
+            A("RcStep", r=R("direct"), kind="nohost"),
+            A("RcStep", r=R("handler", (), 2, canc=True, att=False, st="inst"), kind="inst")],
+            lambda ps, ring: not ps[-1]["chand"] and ps[-1]["sched"].get(T("CRecon", a=False)) == 1),
     }
 
 
@@ -296,7 +316,7 @@ def replay_workers():
         free = (os.cpu_count() or 1) - os.getloadavg()[0]
     except OSError:
         free = 1
-    return max(1, min(8, int(free)))
+    return max(1, min(4, int(free)))      # more forked workers fight over the pages they share with the parent
 
 
 def sig_of(div):
@@ -412,7 +432,7 @@ def run(ctx):
         bad3 = copy.deepcopy(traces[victim][:8])
         bad3[4]["post"]["up"] = ["F" if x == "T" else "T" for x in bad3[4]["post"]["up"]]
         bad4 = copy.deepcopy(traces[victim][:8])
-        bad4[5]["post"]["sched"] = bad4[5]["post"]["sched"] + [{"k": "Refresh", "h": 0, "x": "", "c": False, "n": 1}] \
+        bad4[5]["post"]["sched"] = bad4[5]["post"]["sched"] + [{"k": "Refresh", "h": 0, "x": "", "c": False, "a": False, "n": 1}] \
             if not any(x["k"] == "Refresh" for x in bad4[5]["post"]["sched"]) else [x for x in bad4[5]["post"]["sched"] if x["k"] != "Refresh"]
         selftest = [traces[victim][:8], bad1, bad2, bad3, bad4]
 
@@ -431,8 +451,7 @@ def run(ctx):
     reached = set()
     actions_seen = set()
     replayed = steps = diverged = 0
-    workers = replay_workers()
-    ctx.note("replay_worker_processes", workers)
+    used_workers = []
     timing["waiting_for_graphs_s"] = timing["replay_s"] = 0.0
     order = {n: k for k, (n, _) in enumerate(cfgs)}
     for label, part in batches:
@@ -462,7 +481,9 @@ def run(ctx):
             if missing:
                 raise tlc.MachineryError("vacuity witnesses not reached in any configuration: %s" % missing)
         # thorough: the largest graphs are replayed as far as the time budget allows
-        deadline = 10 ** 12 if quick else max(ctx.t0 + 420.0, time.time() + 150.0)
+        deadline = 10 ** 12 if quick else max(ctx.t0 + 500.0, time.time() + 150.0)
+        workers = replay_workers()
+        used_workers.append(workers)
         walks = _covering_walks(edges, init)
         walks.sort(key=lambda w: order.get(scen_of[w[0]], 99))          # stable: smallest configurations first
         per = {n: {"states": len(by_name.get(n, ())), "edges": 0, "edges_replayed": 0, "walks": 0} for n, _ in part}
@@ -518,6 +539,7 @@ def run(ctx):
         del nodes, edges, walks, scen_of, edge_scen
         timing["replay_s"] = round(timing["replay_s"] + time.time() - t0, 2)
     ctx.traces_validated += replayed
+    ctx.note("replay_worker_processes", used_workers)
     ctx.note("behaviours_replayed", replayed)
     ctx.note("steps_replayed", steps)
     ctx.note("vacuity_witnesses_reached", sorted(reached & set(WITNESSES)))
@@ -596,8 +618,9 @@ def run(ctx):
         "no session is open (the one Cluster.connect() returns is shut down and dropped): on_up / on_add mark a host up at "
         "once, on_down is never discounted; pools, prepared statements and requests are the business of other checks",
         "every executor task is atomic, except that a control reconnection stops before each connection attempt of its "
-        "query-plan loop and before _set_new_connection (the handler's `if not self._cancelled` is evaluated together with "
-        "the installation); Cluster.shutdown in three stretches",
+        "query-plan loop, where _reconnect_internal has returned, and - a handler's run() - between its `if not "
+        "self._cancelled` and _set_new_connection; _try_connect itself (connect, register, read, refresh) is one step; "
+        "Cluster.shutdown in three stretches",
         "all live nodes report the same membership; a host that left the ring never comes back; REMOVED_NODE is never "
         "pushed for a member; a node leaves only while the driver has no open connection to it",
         "time is not modelled: the scheduler may hand over any waiting entry; the binding checks every delay against its "
@@ -609,7 +632,7 @@ def run(ctx):
 
 
 def _relevant_inv(name):
-    return {"events": ["OnePending"], "schema": ["OnePending"], "handler": ["InstalledOpen"], "reconnect": [], "ring": [], "status": [],
+    return {"events": ["OnePending"], "schema": ["OnePending"], "handler": ["InstalledOpen", "OneHandler"], "reconnect": [], "ring": [], "status": [],
             "windows-off": []}.get(name, INVARIANTS)
 
 
